@@ -103,6 +103,10 @@ func runC01(c *Cfg) {
 		if rg.IntN(3) == 0 {
 			failSomewhere(rg.IntN(1<<30), sc)
 		}
+		if sc.Runs > 1 && i%5 == 0 {
+			// run 0 is cancelled somewhere; the lifecycle of every node in the later runs is as if nothing had happened
+			sc.Inject = scen.Inject{Kind: []string{"cancel", "deadline"}[i/5%2], At: rg.IntN(12), OneRun: true, Run: 0}
+		}
 		outs, _ := judgeFor(c, "C01", "embedded", sc)
 		ev := 0
 		for _, o := range outs {
